@@ -42,7 +42,7 @@ RULE = ("fixed families (never queried / queried without domain / with explicit 
 
 
 def budget(tier: str) -> int:
-    return 1500 if tier == "quick" else 12000
+    return 1500 if tier == "quick" else 30000
 
 
 def _case(n, ops, tags, origin):
@@ -80,6 +80,14 @@ def generate(rng, tier, n):
         g = _sg.Gen(rng, classes=rng.choice([(1, 2), (1, 2, 3), (1, 1, 2, 7)]))
         ops = [g.new() for _ in range(rng.randint(1, 3))]
         ops += g.history(rng.randint(1, 7), w_new=1.0, w_drop=0.7, w_rel=2.5, w_sweep=0.3, w_clear=0.0, w_query=2.0)
+        # a dead, unswept instance met by the transitive inference raises (finding F-C14-2, C14's subject): inside a
+        # loop body every drop is followed by a sweep
+        swept = []
+        for op in ops:
+            swept.append(op)
+            if op[0] == "drop":
+                swept.append(["sweep"])
+        ops = swept
         tags = ["random"]
         if any(op[0] in ("query", "queryd", "mkq", "mkqd") for op in ops):
             tags.append("with-query")
